@@ -142,11 +142,12 @@ class Driver:
                 self.liq_before = self.project()
                 orig = m._do_liquidate
 
-                def wrapped(c, d, cover, _o=orig):
+                def wrapped(*a, _o=orig, **kw):      # whatever signature the step function has
                     before = self.project()
                     n = len(self.actions)
-                    _o(c, d, cover)
+                    r = _o(*a, **kw)
                     self.liq_steps.append((before, self.project(), self.actions[n:]))
+                    return r
                 m._do_liquidate = wrapped
                 try:
                     m.update()
